@@ -535,23 +535,75 @@ func rawHandled(e *engines, op, val string) bool {
 	if h == nil {
 		return false
 	}
-	found := false
-	info := e.vm.Prog.Pkg("vm").TypesInfo
-	for _, st := range h.Clause.Body {
+	_, ok := rawDispatch(e.vm.Prog.Pkg("vm").TypesInfo, h.Clause)[val]
+	return ok
+}
+
+// rawDispatch: how a handler branches on a constant-valued quantity (its raw operand): the
+// statements run for each constant, whether written as a nested `switch t { case 0: … }` or
+// as a chain of `t == 0` tests (if / else-if, tagless switch, early-leaving ifs).
+func rawDispatch(info *types.Info, clause *ast.CaseClause) map[string][]ast.Stmt {
+	out := map[string][]ast.Stmt{}
+	constOf := func(x ast.Expr) (string, bool) {
+		if tv, ok := info.Types[x]; ok && tv.Value != nil {
+			return tv.Value.ExactString(), true
+		}
+		return "", false
+	}
+	for _, st := range clause.Body {
 		ast.Inspect(st, func(n ast.Node) bool {
 			cc, ok := n.(*ast.CaseClause)
 			if !ok {
 				return true
 			}
 			for _, x := range cc.List {
-				if tv, ok := info.Types[x]; ok && tv.Value != nil && tv.Value.ExactString() == val {
-					found = true
+				if v, ok := constOf(x); ok {
+					out[v] = cc.Body
 				}
 			}
 			return true
 		})
 	}
-	return found
+	chain := func(list []ast.Stmt) {
+		for i := range list {
+			for _, br := range eng.BranchChain(list, i) {
+				if br.Cond == nil {
+					continue
+				}
+				if b, ok := eng.Unparen(br.Cond).(*ast.BinaryExpr); ok && b.Op == token.EQL {
+					if v, ok := constOf(b.Y); ok {
+						if _, dup := out[v]; !dup {
+							out[v] = br.Body
+						}
+					} else if v, ok := constOf(b.X); ok {
+						if _, dup := out[v]; !dup {
+							out[v] = br.Body
+						}
+					}
+				}
+			}
+		}
+	}
+	chain(clause.Body)
+	eng.StmtLists(clause, chain)
+	// an if with an init statement (`if t := vm.arg(); t == 0 {…} else if t == 1 {…}`)
+	ast.Inspect(clause, func(n ast.Node) bool {
+		is, ok := n.(*ast.IfStmt)
+		for ok && is != nil {
+			if b, isB := eng.Unparen(is.Cond).(*ast.BinaryExpr); isB && b.Op == token.EQL {
+				for _, side := range []ast.Expr{b.Y, b.X} {
+					if v, isC := constOf(side); isC {
+						if _, dup := out[v]; !dup {
+							out[v] = is.Body.List
+						}
+					}
+				}
+			}
+			is, ok = is.Else.(*ast.IfStmt)
+		}
+		return true
+	})
+	return out
 }
 
 // pairRules: the +2 kinds flow only into the slot whose consumer pops two per element.
